@@ -65,8 +65,8 @@ class Adapter(EnvAdapter):
         out += [
             _c("r1c3h1a1_s1q1_t80", 1, 3, 1, 1, 1, 1, 80, episodes=12, max_steps=84, policies=pols),
             _c("r1c3h1a1_s2q3_t80", 1, 3, 1, 1, 2, 3, 80, episodes=12, max_steps=84, policies=pols),
-            _c("r1c3h1a2_s1q2_t60", 1, 3, 1, 2, 1, 2, 60, episodes=20, max_steps=64, policies=polm),
-            _c("r1c3h2a2_s2q4_t60", 1, 3, 2, 2, 2, 4, 60, episodes=20, max_steps=64, policies=polm),
+            _c("r1c3h1a2_s1q2_t60", 1, 3, 1, 2, 1, 2, 60, episodes=12, max_steps=64, policies=polm),
+            _c("r1c3h2a2_s2q4_t60", 1, 3, 2, 2, 2, 4, 60, episodes=12, max_steps=64, policies=polm),
             _c("r1c3h2a1_s1q7_t60", 1, 3, 2, 1, 1, 7, 60, episodes=8, max_steps=64, policies=pols),
             _c("r2c1h1a2_s1q1_t40", 2, 1, 1, 2, 1, 1, 40, episodes=15, max_steps=44, policies=polm),
             _c("r1c5h2a3_s1q5_t60", 1, 5, 2, 3, 1, 5, 60, episodes=10, max_steps=64, policies=polm, probe_cap=40,
